@@ -7,10 +7,12 @@ META = dict(
               "file system, step-by-step comparison with a reference model of the statement",
     text="For each of the 7 rules x field selection {all, one}: breadth-first search, with canonical-state dedupe, over every history "
          "of up to 6 (quick) / 12 (thorough) operations after START from the alphabet {RUN, tick, write same value, write different "
-         "value, write other field, push to deck / append to streak list, STOP+START restart (once)}, at most one logger send per tick "
+         "value, write other field, push to deck / append to streak list (a proper entry, or the next of None, 0, '', {}, []), STOP+START "
+         "restart (once)}, at most one logger send per tick "
          "as the Skedder does, writes before or after the logger in a tick.  After every operation, and again after an appended STOP, "
          "the log file content on the in-memory file system must equal header + the records the statement promises; queue rules must "
-         "leave the queue empty.",
+         "leave the queue empty.  For streak and deck additionally the complete grid of queue contents of up to 3 (quick) / 4 (thorough) "
+         "elements over {proper entry, None, 0, '', {}, []}, split in every way around an earlier run.",
     note="One log with one loggee share of two fields; logger period is represented by which ticks carry a RUN (the Skedder only "
          "decides when to send RUN); values cycle mod 3; writes use Share.update (the stamping write); bounded depth, not a proof.",
 )
@@ -28,10 +30,29 @@ BASE = "log"
 TAG = "x"
 
 
+# Elements that are not proper entries: non-mappings and falsy values.  None matters most:
+# it is a legal deck element (Share.push / Deck.push accept it) but also what Deck.spew()
+# returns for 'empty'.
+JUNK = ["None", "0", "''", "{}", "[]"]
+
+
+def junk_value(name):
+    return dict([("None", None), ("0", 0), ("''", ""), ("{}", {}), ("[]", [])])[name]
+
+
 def alphabet(rule):
     if rule in QUEUE:
-        return ["R", "T", "q", "wb", "X"]
+        return ["R", "T", "q", "j", "wb", "X"]      # j: push the next junk element (cycles through JUNK)
     return ["R", "T", "ws", "wd", "wb", "X"]
+
+
+def kind_of(e):
+    """Element kind for canonical states: proper entry or which junk."""
+    if isinstance(e, dict) and e:
+        return "m"
+    if isinstance(e, int) and not isinstance(e, bool) and e > 0:
+        return "m"
+    return repr(e)
 
 
 def selected_fields(rule, sel):
@@ -65,7 +86,9 @@ class Ref:
         self.b = 0
         self.queue = []
         self.npush = 0
-        self.records = []
+        self.njunk = 0
+        self.records = []            # the records the statement requires, in order
+        self.items = []              # ("req", line) | ("opt", stamp): see matches()
         self.recorded = False        # at least one record written by a run
         self.pending = False         # an update was made after the previous record
         self.last = None             # last logged values of the selected fields
@@ -80,15 +103,25 @@ class Ref:
         return [d[f] for f in self.fields]
 
     def record(self, vals):
-        self.records.append("%s%s\n" % (self.now, "".join("\t%s" % (v,) for v in vals)))
+        line = "%s%s\n" % (self.now, "".join("\t%s" % (v,) for v in vals))
+        self.records.append(line)
+        self.items.append(("req", line))
 
     def run(self):
         r = self.rule
         if r == "never":
             return
-        if r in QUEUE:
+        if r == "streak":                # every element of the sequence is loggable with %s
             for e in self.queue:
-                self.record([e[f] for f in self.fields] if r == "deck" else [e])
+                self.record([e])
+            self.queue = []
+            return
+        if r == "deck":                  # every queued mapping entry, in order; what an element that is
+            for e in self.queue:         # not a (non-empty) mapping produces is not defined: zero or
+                if isinstance(e, dict) and e:      # one line with this stamp is accepted, the drain goes on
+                    self.record([e[f] for f in self.fields])
+                else:
+                    self.items.append(("opt", "%s" % self.now))
             self.queue = []
             return
         if r == "once":
@@ -148,6 +181,11 @@ class Ref:
             self.npush += 1
             n = self.npush
             self.queue.append(dict(a=n, b=10 * n) if self.rule == "deck" else n)
+        elif op == "j":
+            self.apply("j:" + JUNK[self.njunk % len(JUNK)])
+        elif op.startswith("j:"):
+            self.njunk += 1
+            self.queue.append(junk_value(op[2:]))
         elif op == "X":
             self.apply("STOP")
             self.apply("T")
@@ -158,6 +196,27 @@ class Ref:
 
     def content(self):
         return self.header + "".join(self.records)
+
+    def matches(self, got):
+        """got == header + required records, with at most one extra line (carrying the run's
+        stamp) allowed where an undefined element was drained."""
+        if got == self.content():
+            return True
+        if got is None or not got.startswith(self.header):
+            return False
+        gl = got[len(self.header):].splitlines(True)
+        i = 0
+        for k, (kind, val) in enumerate(self.items):
+            if kind == "req":
+                if i < len(gl) and gl[i] == val:
+                    i += 1
+                else:
+                    return False
+            elif i < len(gl) and (gl[i].startswith(val + "\t") or gl[i] == val + "\n"):
+                nxt = next((v for kk, v in self.items[k + 1:] if kk == "req"), None)
+                if gl[i] != nxt:
+                    i += 1
+        return i == len(gl)
 
 
 # --------------------------------------------------------------------------- implementation driver
@@ -176,6 +235,7 @@ class Impl:
                               share_init=init, tick=TICK, base=BASE, tag=TAG,
                               logger_kw=dict(reuse=(sel == "all")))
         self.npush = 0
+        self.njunk = 0
 
     def apply(self, op):
         w = self.w
@@ -200,18 +260,29 @@ class Impl:
             if self.rule == "deck":
                 return sh.push(self.odict([("a", n), ("b", 10 * n)]))
             return sh["a"].append(n)
+        if op == "j":
+            return self.apply("j:" + JUNK[self.njunk % len(JUNK)])
+        if op.startswith("j:"):
+            self.njunk += 1
+            v = junk_value(op[2:])
+            if self.rule == "deck":
+                return sh.push(v)
+            return sh["a"].append(v)
         if op == "X":
             w.stop()
             w.advance()
             return w.start()
         raise core.BrokenCheck("unknown op %r" % op)
 
-    def queue_len(self):
+    def queue(self):
         if self.rule == "deck":
-            return len(self.w.share.deck)
+            return list(self.w.share.deck)
         if self.rule == "streak":
-            return len(self.w.share["a"])
-        return 0
+            return list(self.w.share["a"])
+        return []
+
+    def queue_len(self):
+        return len(self.queue())
 
     def content(self):
         return self.fs.logical(self.w.log.path) if self.w.log.path else None
@@ -228,7 +299,8 @@ class Impl:
         sh = w.share
         a = sh["a"]
         return (w.logger.status, w.logger.desire, age(w.log.stamp), age(sh.stamp), age(w.logger.stamp),
-                len(a) if isinstance(a, list) else a, sh["b"], len(sh.deck), lasts,
+                tuple(kind_of(e) for e in a) if isinstance(a, list) else a, sh["b"],
+                tuple(kind_of(e) for e in sh.deck), lasts,
                 w.log.first, w.log.file is not None and not w.log.file.closed)
 
 
@@ -261,8 +333,8 @@ class Node:
 
     def canon(self):
         r = self.ref
-        return (self.impl.canon(), r.recorded, r.pending, tuple(r.last or ()), len(r.queue),
-                r.sent, r.restarted, r.started)
+        return (self.impl.canon(), r.recorded, r.pending, tuple(r.last or ()),
+                tuple(kind_of(e) for e in r.queue), r.njunk % len(JUNK), r.sent, r.restarted, r.started)
 
 
 def is_subseq(small, big):
@@ -278,7 +350,9 @@ def diverge(node, hist, part, stage):
     example = "fields=%s: %s" % (sel, ex_hist)
     replay = dict(rule=rule, fields=sel, history=list(hist), tick=TICK,
                   how="LogWorld(fs, rule, fields, share a/b) ; START/R/STOP = logger.runner.send(...) ; T = store.changeStamp(+tick) ; "
-                      "ws/wd/wb = share.update(a=same / a=(a+1)%3 / b=(b+1)%3) ; q = deck push / list append ; X = STOP, T, START")
+                      "ws/wd/wb = share.update(a=same / a=(a+1)%3 / b=(b+1)%3) ; q = deck push(odict(a=n,b=10n)) / list append(n) ; "
+                      "j:<v> = deck push(v) / list append(v) for v in None, 0, '', {}, [] ; j = the next of these in that order ; "
+                      "X = STOP, T, START")
     if node.error:
         op, ex = node.error
         part.violation("%s|raises|%s" % (rule, type(ex).__name__), example,
@@ -292,11 +366,12 @@ def diverge(node, hist, part, stage):
         part.violation("%s|files" % rule, example, "rule %s: expected exactly one log file, found %r" % (rule, files), replay)
         return True
     ql = node.impl.queue_len()
-    if rule in QUEUE and node.ref.sent and ql != 0 and not hist[-1] in ("q",) and _no_push_since_run(hist):
+    if rule in QUEUE and hist and hist[-1] in ("START", "R", "STOP", "X") and ql != 0:
         part.violation("%s|queue-not-empty" % rule, example,
-                       "rule %s: %d element(s) left in the queue after a logger run (%s)" % (rule, ql, ex_hist), replay)
+                       "rule %s: %d element(s) %r left in the queue after a logger run (%s)"
+                       % (rule, ql, node.impl.queue(), ex_hist), replay)
         return True
-    if got == exp:
+    if node.ref.matches(got):
         return False
     h = node.ref.header
     if not got.startswith(h) or got.count(h.split("\n")[0] + "\n") != 1:
@@ -316,16 +391,6 @@ def diverge(node, hist, part, stage):
     part.violation("%s|%s" % (rule, kind), example,
                    "rule %s, %s after history [%s] (%s): records %r, statement promises %r"
                    % (rule, kind, ex_hist, stage, gl, el), replay)
-    return True
-
-
-def _no_push_since_run(hist):
-    """True when no element was queued after the most recent logger send."""
-    for op in reversed(hist):
-        if op in ("START", "R", "STOP", "X"):
-            return True
-        if op == "q":
-            return False
     return True
 
 
@@ -380,6 +445,46 @@ def work(item):
     return part
 
 
+def work_grid(item):
+    """Queue rules only: every sequence of up to `maxlen` elements over {proper entry, None, 0,
+    '', {}, []} queued before a logger run, for every split of the sequence around an earlier
+    run (START, first part, tick, RUN, second part, tick, RUN, tick, STOP), compared with the
+    reference after every operation."""
+    _tag, rule, sel, maxlen = item
+    import itertools
+    core.use_repo()
+    part = core.Part()
+    elems = ["q"] + ["j:" + j for j in JUNK]
+    with core.watchdog(600):
+        for n in range(1, maxlen + 1):
+            for seq in itertools.product(elems, repeat=n):
+                for cut in range(0, n):                  # cut == 0: everything before one run
+                    hist = ["START"] + list(seq[:cut]) + (["T", "R"] if cut else []) + list(seq[cut:]) + ["T", "R", "T", "STOP"]
+                    node = Node(rule, sel, [])
+                    done = []
+                    bad = False
+                    for op in hist:
+                        node.step(op)
+                        done.append(op)
+                        part.traces += 1
+                        if diverge(node, done, part, "grid"):
+                            bad = True
+                            break
+                    nj = sum(1 for e in seq if e != "q")
+                    part.outcome("%s:grid %s" % (rule, "violation" if bad else
+                                                 "no junk" if nj == 0 else "all junk" if nj == n else "junk between entries"))
+                    part.nontrivial((rule, sel, seq, cut))
+                    if not bad and n == maxlen and cut == 1 and seq[:3] == ("q", "j:None", "q") and len(part.samples) < 1:
+                        part.sample(dict(rule=rule, fields=sel, history=hist, file=node.impl.content()))
+    part.evaluations = part.traces
+    part.notes["grid_histories"] = sum(len(elems) ** n * n for n in range(1, maxlen + 1))
+    return part
+
+
+def work_any(item):
+    return work_grid(item) if item[0] == "grid" else work(item)
+
+
 def replay(path):
     core.use_repo()
     with open(path) as f:
@@ -398,8 +503,10 @@ def run():
         return replay(os.environ["VERIF_REPLAY"])
     depth = 6 if core.TIER == "quick" else 12
     ck = core.Check("C22", "model_checking", META["technique"])
+    maxlen = 3 if core.TIER == "quick" else 4
     items = [(r, s, depth) for r in RULES for s in ("all", "one")]
-    parts = core.pmap(work, items)
+    items += [("grid", r, s, maxlen) for r in QUEUE for s in ("all", "one")]
+    parts = core.pmap(work_any, items)
     # keep, per group, the shortest (then lexicographically first) example over all shards
     allv = sorted((v for p in parts for v in p.violations),
                   key=lambda v: (v[0], len(v[1].split()), v[1]))
@@ -416,13 +523,19 @@ def run():
         "the Skedder sends a tasker at most one control per tick, so RUN is enabled once per tick; logger period = which ticks carry a RUN",
         "a file reopened by a restart is not a new file: exactly one header in total",
         "header/record layout as pinned by test_logging.py: 'text<TAB>Rule<TAB>name', '_time' + tag or tag.field columns, '%s' formatting",
-        "canonical state = logger status/desire, ages (in ticks) of log, share and logger stamps, share values, queue lengths, last-logged values, "
+        "deck: every queued non-empty mapping must give exactly one record, in order, and the deck must be empty after every run; what an "
+        "element that is not a non-empty mapping (None, 0, '', {}, []) produces is not defined by the statement: zero or one line with the "
+        "run's stamp is accepted at its position, but the drain must continue past it.  streak: every element of the sequence, falsy or "
+        "not, is one record formatted with %s",
+        "canonical state = logger status/desire, ages (in ticks) of log, share and logger stamps, share values, queue contents by element kind, last-logged values, "
         "file-open flags, plus the reference's own state; histories reaching the same canonical state are expanded once",
     ]
-    ck.coverage_extra = dict(depth=depth, shards=len(items), alphabet=dict(value_rules=alphabet("once"), queue_rules=alphabet("deck")))
+    ck.coverage_extra = dict(depth=depth, shards=len(items), queue_grid_maxlen=maxlen, alphabet=dict(value_rules=alphabet("once"), queue_rules=alphabet("deck")))
     return ck.finish(
         rule="BFS from START to depth %d over the alphabet, for 7 rules x {all fields, one field}; every transition and every "
-             "state+STOP compared with the reference; states = distinct canonical states; distinct = (rule, field selection) pairs" % depth,
+             "state+STOP compared with the reference; states = distinct canonical states; plus, for streak and deck, the grid of every "
+             "queue content of up to %d elements over {entry, None, 0, '', {}, []} x every split around an earlier run; "
+             "distinct = (rule, field selection) pairs + grid cases" % (depth, maxlen),
         exhaustive=True,
         explanation="exhaustive within the depth bound: every history of at most %d operations after START is reached or is "
                     "equivalent (same canonical state) to one that is" % depth)
